@@ -243,8 +243,8 @@ Proof.
       replace (N.to_nat (j - i)) with (S (N.to_nat (j - (i + 1)))) by lia. reflexivity.
 Qed.
 
-Lemma aligned_pos gs a : aligned gs a -> 8 * (a / 8) = a - gs.
-Proof. intros (A & B & C). lia. Qed.
+Lemma byte_pos p : p mod 8 = 0 -> 8 * (p / 8) = p.
+Proof. intros H. pose proof (N.div_mod p 8 ltac:(lia)). lia. Qed.
 
 Lemma BA_ok al : backend_ok (BA al) (fun _ => True) tb.
 Proof.
@@ -258,9 +258,10 @@ Proof.
   - intros. apply ba_test_clear_ok.
   - intros. apply ba_find_ok; auto.
   - intros. apply ba_find_ok; auto.
-  - intros t gs a n _ Al. cbn. unfold ba_get. rewrite get_bits_spec, (aligned_pos _ _ Al). reflexivity.
-  - intros t gs a bits _ Al _. cbn. split; auto. intros j. unfold ba_set.
-    rewrite put_bits_spec, (aligned_pos _ _ Al). reflexivity.
+  - intros t gs a n _. cbn. unfold ba_get. destruct (N.eqb_spec ((a - gs) mod 8) 0) as [E|E]; rewrite get_bits_spec; [rewrite (byte_pos _ E)|]; reflexivity.
+  - intros t gs a bits _. cbn. split; auto. intros j. unfold ba_set.
+    destruct (N.eqb_spec ((a - gs) mod 8) 0) as [E|E]; cbn [andb]; [destruct (N.of_nat (length bits) mod 8 =? 0)|];
+      rewrite put_bits_spec; [rewrite (byte_pos _ E)| |]; reflexivity.
   - intros t _. cbn. split; [exact I|]. intros j. unfold tb. destruct j; reflexivity.
   - intros t _. cbn. split3; auto.
 Qed.
